@@ -2,7 +2,7 @@
 """Regenerates every coq/gen/*.v from /repo's working tree (used by setup_cmd; each check regenerates its own)."""
 import importlib, os, sys
 sys.path.insert(0, os.path.dirname(os.path.dirname(os.path.abspath(__file__))))
-NAMES = ['tr_kevent', 'tr_handlers', 'tr_composite', 'tr_oslog', 'tr_decoders', 'tr_pairing', 'tr_filters', 'tr_callstacks', 'tr_format', 'tr_trace', 'tr_codes']
+NAMES = ['tr_kevent', 'tr_handlers', 'tr_composite', 'tr_oslog', 'tr_decoders', 'tr_pairing', 'tr_filters', 'tr_callstacks', 'tr_format', 'tr_trace', 'tr_codes', 'tr_container', 'tr_cli']
 for n in NAMES:
     try:
         importlib.import_module(f'tools.translate.{n}').translate()
